@@ -50,7 +50,7 @@ def tasks(tier, seed):
         if not q:
             add('mps', mode, 2, (1, 2, 2, 1), 'alpha2', cut=10); add('mps', mode, 2, (1, 2, 1, 1), 'sym', cut=10)
             add('mps', mode, 2, (1, 1, 2, 1), 'sym', cut=10)
-            add('mps', mode, 2, (1, 2, 2, 1), 'zero', cplx=True)
+            add('mps', mode, 2, (1, 2, 1, 1), 'zero', cplx=True); add('mps', mode, 2, (1, 1, 1, 1), 'sym', cplx=True, cut=8)
         else:
             add('mps', mode, 2, (1, 2, 1, 1), 'alpha2', cut=8)
     return ts
